@@ -45,6 +45,7 @@ from unyt.exceptions import (
     InvalidUnitOperation,
     MissingMKSCurrent,
     MKSCGSConversionError,
+    SymbolNotFoundError,
     UnitConversionError,
     UnitParseError,
     UnitsNotReducible,
@@ -59,8 +60,10 @@ def _get_latex_representation(expr, registry):
     symbol_table = {}
     for ex in expr.free_symbols:
         try:
-            symbol_table[ex] = registry.lut[str(ex)][3]
-        except KeyError:
+            # through the registry, not its table: SI-prefixed symbols have
+            # no row of their own
+            symbol_table[ex] = registry[str(ex)][3]
+        except (KeyError, SymbolNotFoundError):
             symbol_table[ex] = r"\rm{" + str(ex).replace("_", r"\ ") + "}"
 
     # invert the symbol table dict to look for keys with identical values
